@@ -12,7 +12,7 @@ pub fn c13_spec() -> FarmSpec {
     fn admit(n: &Node) -> bool {
         namespace_free_adjacent(n) && local_names_distinct(n) && data_oriented(n, false)
     }
-    FarmSpec { prop: "C13", flavor: Flavor::SerdeXmlRs, preset: Preset::SerdeXmlRs, deny_variant: false, admit, max_programs: 30_000 }
+    FarmSpec { prop: "C13", flavor: Flavor::SerdeXmlRs, preset: Preset::SerdeXmlRs, deny_variant: false, admit, max_programs: 12_000 }
 }
 
 pub fn run(ctx: &Ctx) {
